@@ -20,6 +20,9 @@ MSA = 'merge_ska_array::MergeSkaArray'
 
 
 def run(facts, chk, tier, only=None):
+    from . import cli_e2e
+    # the subcommand through ska::main() itself (argument parser replaced by a constructed Args value): hand-over of CLI values, width dispatch
+    chk.guard('C08.cli', 'C08.cli:run0', lambda: cli_e2e.check_merge_delete(facts, chk, 'C08.cli', tier, 'delete'))
     from . import e2e2
     chk.guard('C08.e2e', 'C08.e2e:run', lambda: e2e2.check_delete_e2e(facts, chk, 'C08.e2e', tier))
     # ---------------------------------------------------------------- arity
